@@ -39,12 +39,57 @@ class _NullLog(object):
 NULLLOG = _NullLog()
 
 
+STRIPPED = []
+
+
+def _install_log_stripper():
+    """Import hook for txtorcon.*: expression statements that only call a logger
+    (txtorlog.msg(...), log.msg(...), log.err(...)) are compiled as `pass`.  Logging is not
+    observed by any property, and the *arguments* of those calls format protocol data
+    ("cmd: {}".format(data)), which realises symbolic values under CrossHair.  Line numbers
+    are preserved; nothing is written to /repo."""
+    import ast
+    import importlib.abc
+    import importlib.machinery
+
+    class Strip(ast.NodeTransformer):
+        def visit_Expr(self, node):
+            c = node.value
+            if isinstance(c, ast.Call) and isinstance(c.func, ast.Attribute) and \
+                    isinstance(c.func.value, ast.Name) and c.func.value.id in ('txtorlog', 'log') and \
+                    c.func.attr in ('msg', 'err', 'debug', 'info', 'warn'):
+                STRIPPED.append(node.lineno)
+                return ast.copy_location(ast.Pass(), node)
+            return node
+
+    class Loader(importlib.machinery.SourceFileLoader):
+        def get_code(self, fullname):
+            path = self.get_filename(fullname)
+            data = self.get_data(path)
+            tree = Strip().visit(ast.parse(data, filename=path))
+            ast.fix_missing_locations(tree)
+            return compile(tree, path, 'exec', dont_inherit=True)
+
+    class Finder(importlib.abc.MetaPathFinder):
+        def find_spec(self, fullname, path, target=None):
+            if fullname != 'txtorcon' and not fullname.startswith('txtorcon.'):
+                return None
+            spec = importlib.machinery.PathFinder.find_spec(fullname, path, target)
+            if spec is not None and isinstance(spec.loader, importlib.machinery.SourceFileLoader):
+                spec.loader = Loader(spec.loader.name, spec.loader.path)
+            return spec
+
+    sys.meta_path.insert(0, Finder())
+
+
 def install():
     """Idempotent; call once per process before any txtorcon code runs under the tracer."""
     if _installed[0]:
         return
     _installed[0] = True
     repo_on_path()
+    assert 'txtorcon' not in sys.modules, 'prelude.install() must run before txtorcon is imported'
+    _install_log_stripper()
     gc.disable()
     import warnings
     warnings.simplefilter('ignore')
